@@ -31,6 +31,8 @@ CONSTANTS
   FifoSend,    \* TRUE: workers blocked in p.out <- are served in the order they blocked (what the Go runtime
                \* does; needed to replay schedules deterministically).  FALSE: any blocked sender may go next
                \* (all the language promises; used for the exhaustive check).
+  LateResult,  \* FALSE = the code: a panicking operation's error Result is sent BEFORE the worker hands its token
+               \* back and is counted out.  TRUE (negative control): token and count first, Result afterwards.
   MaxPanics,   \* at most this many operations panic (and always fewer than there are workers)
   AtomicLast   \* TRUE = repaired
 
@@ -86,14 +88,19 @@ CloseOut(st) ==
 ReleaseWorker(st, w) ==
   LET pc == st.wpc[w] IN
   CASE pc = "proc.start" -> [st EXCEPT !.wpc[w] = "recvwait"]           \* for input := range p.in
-    [] pc = "proc.recv"  -> [st EXCEPT !.wpc[w] = IF st.cur[w] \in st.bad THEN "psendwait" ELSE "sendwait",
-                                        !.sendq = IF FifoSend THEN Append(@, w) ELSE @]
+    [] pc = "proc.recv"  ->
+         IF LateResult /\ st.cur[w] \in st.bad
+           THEN [st EXCEPT !.wpc[w] = "proc.token_returned", !.tokens = @ + 1]       \* deferred function, wrong order
+           ELSE [st EXCEPT !.wpc[w] = IF st.cur[w] \in st.bad THEN "psendwait" ELSE "sendwait",
+                           !.sendq = IF FifoSend THEN Append(@, w) ELSE @]
                                                                        \* Operation(); p.out <- Result (from the deferred
                                                                        \* function when the operation panicked)
     [] pc = "proc.sent"  -> [st EXCEPT !.wpc[w] = "recvwait"]           \* stop not closed: next input
     [] pc = "proc.token_returned" ->
          \* the test that decides who closes p.out, then wg.Done()
-         LET u == [st EXCEPT !.wpc[w] = "done", !.running = @ - 1] IN
+         LET late == LateResult /\ st.cur[w] \in st.bad
+             u == [st EXCEPT !.wpc[w] = IF late THEN "latesendwait" ELSE "done", !.running = @ - 1,
+                             !.sendq = IF late /\ FifoSend THEN Append(@, w) ELSE @] IN
          IF AtomicLast
            THEN IF u.running = 0 THEN CloseOut(u) ELSE u
            ELSE IF st.tokens = st.t THEN CloseOut(u) ELSE u
@@ -112,9 +119,10 @@ Released(st, p) ==
 \* after its Result has gone: the loop goes on, or (panicked operation) the deferred function returns the token
 AfterSend(u0, w) ==
   LET u == [u0 EXCEPT !.sendq = IF FifoSend THEN Tail(@) ELSE @] IN
-  IF u.wpc[w] = "psendwait" THEN [u EXCEPT !.wpc[w] = "proc.token_returned", !.tokens = @ + 1]
+  IF u.wpc[w] = "latesendwait" THEN [u EXCEPT !.wpc[w] = "done"]
+  ELSE IF u.wpc[w] = "psendwait" THEN [u EXCEPT !.wpc[w] = "proc.token_returned", !.tokens = @ + 1]
   ELSE [u EXCEPT !.wpc[w] = "proc.sent"]
-MaySend(st, w) == st.wpc[w] \in {"sendwait", "psendwait"} /\ (FifoSend => Head(st.sendq) = w)
+MaySend(st, w) == st.wpc[w] \in {"sendwait", "psendwait", "latesendwait"} /\ (FifoSend => Head(st.sendq) = w)
 
 InternalSteps(st) ==
   IF st.panicked THEN {} ELSE
